@@ -346,8 +346,11 @@ class MHistory:
             # a server whose presence node was gone by then; C07 / C08: a server whose presence node existed by then is
             # not treated as failed)
             sname = st['server']
-            if d.state_event_step.get(sname, -1) >= st['step']:
-                placement_checked = []          # an operator's state event came after it: the record is the operator's
+            still = (sname not in d.node_clients) if st['kind'] == 'up-then-gone' else (sname in d.node_clients)
+            if d.state_event_step.get(sname, -1) >= st['step'] or not still:
+                # an operator's state event came after it (the record is the operator's), or the server's presence
+                # changed once more before the cycle (what the master then learns by other routes is not stale)
+                placement_checked = []
             else:
                 placement_checked = placement
             for name, before, _eb, after, _ea in placement_checked:
